@@ -8,7 +8,7 @@ from mc import pool, seams, parser_engine as E, words
 from mc.refsieve import table as T
 from . import parser_common as PC
 
-TAG_KINDS = ["plain", "str", "num", "sl", "values", "two"]
+TAG_KINDS = ["plain", "str", "num", "sl", "sl-scalar", "values", "two"]
 POS_KINDS = ["s", "n", "sl"]
 EXT = "x-ext"
 
@@ -50,6 +50,10 @@ def build(defn, k):
             slots.append({t: (None, "n", None)})
         elif kind == "sl":
             d["extra_arg"] = {"type": ["string", "stringlist"], "required": False}
+            slots.append({t: (None, "sl", None)})
+        elif kind == "sl-scalar":
+            # README spelling: "extra_arg": {"type": "stringlist"} (a string list is a bracketed list or a single string)
+            d["extra_arg"] = {"type": "stringlist", "required": False}
             slots.append({t: (None, "sl", None)})
         elif kind == "values":
             d["extra_arg"] = {"type": "string", "values": ['"v1"', '"v2"'], "required": False}
